@@ -1,4 +1,5 @@
 """C04 - operands the ISA cannot encode are rejected, never mis-encoded."""
+import re
 from . import encgen, encrun, progcheck as P, progrun
 
 PROP = "C04"
@@ -82,7 +83,8 @@ def run(res):
     pointer = [c for c in illegal if "+q" in c or ",X" in c or ",-" in c or " X" in c.split(" ", 3)[3] or " -" in c]
     pointer = [c for c in pointer if c.split(" ")[3].count(",") <= 1][:1500 if res.tier == "quick" else 100000]
     progs = []
-    for cse in pointer + illegal[:600 if res.tier == "quick" else 60000]:
+    c01.SPELL[0] = rng
+    for cse in pointer + illegal[:600 if res.tier == "quick" else 60000] + [c for c in illegal if re.search(r"e-?\d{3,}", c)][:900 if res.tier == "quick" else 60000]:
         bad = c01.to_source(cse)
         shape = rng.randrange(6)
         tail = [[".dseg", "v: .byte 1"], [".eseg", " .db 1"], [".org 0x100", " nop"], [".dseg", ".byte 2", ".cseg", " nop", ".eseg", " .db 3"], [" nop", " ret"], []][shape]
